@@ -48,6 +48,9 @@ fn main() {
             let code = avm::dispatch(&cfg, &extra);
             std::process::exit(code);
         }
+        "child-longgame" => {
+            std::process::exit(avm::longgame::child(&args[2..]));
+        }
         "replay" => {
             let cfg = Cfg { id: "replay", tier, seed, workers: 1, verif_dir, started: Instant::now(), scale };
             std::process::exit(avm::replay::replay(&cfg, &args[2]));
